@@ -1,11 +1,13 @@
 #![allow(unused)]
 
 use crate::sps::syntax::*;
-use std::collections::HashMap;
+use std::collections::BTreeMap;
 use zydeco_statics::surface_syntax::ScopedArena;
 use zydeco_syntax::{BuiltinValueRole, FloatOperation, IntegerOperation};
 
-pub type BuiltinMap = HashMap<String, Builtin>;
+/// Keyed by name in a sorted map so that emitters, which iterate it, produce the
+/// same declaration order in every process.
+pub type BuiltinMap = BTreeMap<String, Builtin>;
 
 #[derive(Clone, Debug, thiserror::Error)]
 pub enum BuiltinPackageLowerError {
